@@ -23,15 +23,16 @@ T[tribit_{i-1}][tribit_i] (locality, sub-check 4) ; points -> dibit pairs (bijec
 inverted uniquely because each row of T has 8 distinct entries (1).
 """
 from mc import env  # noqa: F401
-from mc import par, spaces
+from mc import par, spaces, hist
 from mc.report import Report, Acc, exc_sig
 
 import itertools
 from array import array
 
-from bitarray import bitarray
+from bitarray import bitarray, frozenbitarray
 
 from okdmr.dmrlib.etsi.fec.trellis import Trellis34 as T
+import okdmr.dmrlib.etsi.fec.trellis as trellis_module
 
 REJECT = (AssertionError, ValueError, KeyError)
 NPOS = 49
@@ -509,6 +510,130 @@ def run(only=None):
             except Exception as e:
                 s.violation("exception_encode_again:" + exc_sig(e), case, repr(e))
             s.case(nontrivial=True, calls=10, outcome="ok", sample=case if len(s.samples) < 1 else None)
+        s.done()
+
+
+    if want("input_containers"):
+        # the block / the stream in the other containers a caller holds bits in: read-only and non-resizable ones included
+        s = rep.sub("input_containers",
+                    "weight <= 1 blocks + complements + seed blocks x {frozenbitarray, bitarray with a live memoryview (not resizable), "
+                    "bitarray over an imported read-only buffer, bitarray slice of a longer buffer}: encode and decode give the same bits "
+                    "as for a plain bitarray and leave the argument as it was")
+        blocks2 = spaces.small_scope_messages(144, 1, extra=[env.det_bits(f"c10-cont-{i}", 144) for i in range(4)])
+
+        def containers(bits01):
+            plain = bitarray(bits01)
+            yield "frozenbitarray", frozenbitarray(plain), None
+            x = bitarray(bits01)
+            yield "bitarray_with_exported_buffer", x, memoryview(x)
+            pad = (-len(plain)) % 8
+            yield "bitarray_over_readonly_buffer", bitarray(buffer=(plain + bitarray(pad)).tobytes())[: len(plain)] if pad else bitarray(buffer=plain.tobytes()), None
+            if not pad:
+                yield "bitarray_over_writable_buffer", bitarray(buffer=bytearray(plain.tobytes())), None
+
+        for b in blocks2:
+            case = {"block": hex(int(b, 2))}
+            try:
+                ref = T.encode(bitarray(b)).to01()
+            except Exception as e:  # noqa: BLE001
+                s.violation("exception_containers:" + exc_sig(e), case, repr(e))
+                continue
+            for kind, arg, keep in containers(b):
+                try:
+                    enc = T.encode(arg)
+                    if enc.to01() != ref:
+                        s.violation(f"encode_differs_for_container:{kind}", case)
+                    if arg.to01() != b:
+                        s.violation(f"encode_alters_argument:{kind}", case)
+                except Exception as e:  # noqa: BLE001
+                    s.violation(f"exception_encode_container:{kind}:" + exc_sig(e), case, repr(e))
+                del keep
+                s.case(nontrivial=True, calls=1, outcome=kind, sample={**case, "container": kind} if len(s.samples) < 2 else None)
+            for kind, arg, keep in containers(ref):
+                try:
+                    dec = T.decode(arg)
+                    if dec.to01() != b:
+                        s.violation(f"decode_differs_for_container:{kind}", case)
+                    if T.decode(arg, as_bytes=True) != bitarray(b).tobytes():
+                        s.violation(f"decode_as_bytes_differs_for_container:{kind}", case)
+                    if arg.to01() != ref:
+                        s.violation(f"decode_alters_argument:{kind}", case)
+                except Exception as e:  # noqa: BLE001
+                    s.violation(f"exception_decode_container:{kind}:" + exc_sig(e), case, repr(e))
+                del keep
+                s.case(nontrivial=True, calls=2, outcome=kind)
+        s.done()
+
+    if want("history_with_out_of_range_calls"):
+        # histories of length 2 whose first call is *outside* the domain (any outcome of that call is accepted -- the property says
+        # nothing about it); the second, valid, call must behave as in a fresh process
+        s = rep.sub("history_with_out_of_range_calls",
+                    "12 public functions x 11 out-of-range arguments (empty, short, over-long, wrong element range, wrong container); "
+                    "whatever that call does, the next valid encode/decode/interleave/deinterleave of 3 blocks gives the reference result")
+        probe_blocks = [env.det_bits(f"c10-oor-{i}", 144) for i in range(2)] + ["1" * 144]
+        refs = []
+        for b in probe_blocks:
+            enc = T.encode(bitarray(b))
+            dd = T.bits_to_dibits(enc)
+            refs.append((b, enc.to01(), list(T.deinterleave(dd)), list(T.interleave(T.deinterleave(dd)))))
+        fnames = ["bits_to_dibits", "dibits_to_bits", "deinterleave", "interleave", "dibits_to_points", "points_to_dibits",
+                  "points_to_tribits", "tribits_to_points", "tribits_to_bits", "bits_to_tribits", "decode", "encode"]
+        bad_args = [
+            ("empty_bitarray", lambda: bitarray()), ("bitarray_200", lambda: bitarray("10" * 100)), ("bitarray_7", lambda: bitarray("1011011")),
+            ("bitarray_197", lambda: bitarray("110" * 65 + "10")), ("empty_array", lambda: array("B")), ("array_100", lambda: array("B", [1] * 100)),
+            ("array_50", lambda: array("B", [1] * 50)), ("signed_array_100", lambda: array("b", [1, -1, 3, -3] * 25)),
+            ("bytes_25", lambda: bytes(range(25))), ("array_98_of_200", lambda: array("B", [200] * 98)), ("list_99", lambda: [1, 0, 1] * 33),
+        ]
+        def w_oor(fns):
+            acc = Acc()
+            s = acc  # noqa: F841  (same interface)
+            for fn in fns:
+                for lab, mk in bad_args:
+                    case = {"first_call": f"Trellis34.{fn}({lab})"}
+                    outcome = "returned"
+                    try:
+                        getattr(T, fn)(mk())
+                    except Exception as e:  # noqa: BLE001
+                        outcome = type(e).__name__
+                    for b, enc01, deint, inter in refs:
+                        try:
+                            enc = T.encode(bitarray(b))
+                            if enc.to01() != enc01:
+                                s.violation("encode_differs_after_out_of_range_call", {**case, "block": hex(int(b, 2))})
+                            if T.decode(bitarray(enc01)).to01() != b or T.decode(bitarray(enc01), as_bytes=True) != bitarray(b).tobytes():
+                                s.violation("decode_differs_after_out_of_range_call", {**case, "block": hex(int(b, 2))})
+                            dd = T.bits_to_dibits(bitarray(enc01))
+                            if list(T.deinterleave(dd)) != deint or list(T.interleave(T.deinterleave(dd))) != inter:
+                                s.violation("interleaver_differs_after_out_of_range_call", {**case, "block": hex(int(b, 2))})
+                        except Exception as e:  # noqa: BLE001
+                            s.violation("exception_after_out_of_range_call:" + exc_sig(e), {**case, "block": hex(int(b, 2))},
+                                        f"a valid call raises after {case['first_call']}: {e!r}")
+                            break
+                    s.case(nontrivial=True, calls=1 + 6 * len(refs), outcome=outcome, sample=case if len(s.samples) < 2 else None)
+                    if acc.viol:
+                        return acc  # this process is spoilt: the cases after the first failing one would all blame the wrong call
+            return acc
+
+        # in forked children: whatever an out-of-range call leaves behind must not reach the other sub-checks of this run
+        for acc in par.pmap(w_oor, par.split_list(fnames, 4), 4):
+            s.merge(acc)
+        if not s.viol:
+            s.declared = len(fnames) * len(bad_args)
+        s.done()
+
+    if want("long_call_history"):
+        s = rep.sub("long_call_history",
+                    "encode / decode (bits and bytes) of one fixed block called again and again in one process: the result never depends on "
+                    "how many calls came before.  Depth 3 when a call leaves class/module data untouched (observed), 2^16+256 calls per "
+                    "entry point when it does not, and always in the thorough tier")
+        lb = env.det_bits("c10-long", 144)
+        lenc = T.encode(bitarray(lb))
+        hist.long_history(s, [T, trellis_module], [
+            ("encode_bits", lambda: T.encode(bitarray(lb)).to01()),
+            ("encode_bytes", lambda: T.encode(bitarray(lb).tobytes()).to01()),
+            ("decode_bits", lambda: T.decode(bitarray(lenc)).to01()),
+            ("decode_bytes", lambda: T.decode(bitarray(lenc), as_bytes=True)),
+        ], always=thorough)
         s.done()
 
     rep.bounds = {
